@@ -198,6 +198,25 @@ def run_case(case, ctx):
         ctx.op()
         ctx.check("C11.paths-agree", same(c2, m, ulp=4), {"path": "numba", "got": arr(c2), "want": arr(m)})
         ctx.check("C11.operands-unmodified", same(a, a0) and same(b, b0), {"path": "after all"})
+        # provenance of the receiving droplet must not matter: pickle round trip, deepcopy, emulsion member
+        import copy
+        import pickle
+
+        from droplets import Emulsion
+
+        for how in ("pickle", "deepcopy", "emulsion-member"):
+            if how == "pickle":
+                x, y = pickle.loads(pickle.dumps(a)), pickle.loads(pickle.dumps(b))
+            elif how == "deepcopy":
+                x, y = copy.deepcopy(a), copy.deepcopy(b)
+            else:
+                em = Emulsion([a, b])
+                x, y = em[0], em[1]
+            mo = x.merge(y)
+            ret = x.merge(y, inplace=True)
+            ctx.op(2)
+            ctx.check("C11.paths-agree", same(mo, m) and ret is x and same(x, m), {"path": "operands via " + how, "out_of_place": arr(mo), "inplace": arr(x), "want": arr(m)})
+        ctx.check("C11.operands-unmodified", same(a, a0) and same(b, b0), {"path": "after provenance paths"})
         # results of separate out-of-place merges are independent objects
         snap = arr(m)
         other = a.merge(a)
